@@ -604,6 +604,7 @@ type rsWorld struct {
 	rec        *rsRecorder
 	decidedAll map[int]bool
 	stop       bool
+	tainted    map[uint16]rsTaint
 	noLong     bool            // quiesce mode: nothing is held across a reopen
 	blamed     map[string]bool // (side,sid,ord) for which a root-cause monitor already fired
 	apiMode    bool            // reopen on the API signal only: outside the property's precondition, failures become observations
@@ -617,7 +618,7 @@ type rsStats struct {
 
 func newRsWorld(s *sim, seed int64, st *rsStats) *rsWorld {
 	w := &rsWorld{s: s, rng: rand.New(rand.NewSource(seed)), held: map[int]*rsHold{}, sched: map[int]rsAct{}, ordinal: map[int]int{},
-		step: 100 * time.Millisecond, stats: st, strict: true, blamed: map[string]bool{}, decidedAll: map[int]bool{}}
+		step: 100 * time.Millisecond, stats: st, strict: true, blamed: map[string]bool{}, decidedAll: map[int]bool{}, tainted: map[uint16]rsTaint{}}
 	for i := 0; i < 2; i++ {
 		w.objs[i] = map[uint16][]*rsObj{}
 		w.msgObj[i] = map[uint16]map[int]int{}
@@ -642,6 +643,36 @@ func (w *rsWorld) fail(key, what string) {
 }
 
 func rsObjKey(o *rsObj) string { return fmt.Sprintf("%d/%d/%d", o.side, o.sid, o.ord) }
+
+// rsTaint: a white-box root-cause monitor (stale request applied to a newer incarnation / late response
+// rewinding the counters of a newer incarnation) fired on identifier sid at incarnation ord.  From that
+// point the one-to-one pairing of the writer's and the reader's Stream objects of that identifier is void:
+// the reader's object was unregistered while its writer was still open, so the rest of that incarnation's
+// data creates an extra object at the reader, the application closes on the spurious EOF, sequence numbers
+// are reused.  What P_C14 then sees on the same identifier for incarnations >= ord is a consequence of the
+// finding already reported, not a finding of its own.
+type rsTaint struct {
+	ord int
+	key string
+}
+
+func (w *rsWorld) taint(sid uint16, ord int, key string) {
+	if t, ok := w.tainted[sid]; ok && t.ord <= ord {
+		return
+	}
+	w.tainted[sid] = rsTaint{ord, key}
+}
+
+// symptom reports a P_C14 violation seen on incarnation ord (ord2: the other incarnation involved, or -1) of sid,
+// unless a root cause was already reported for that identifier at or before that incarnation.
+func (w *rsWorld) symptom(sid uint16, ord, ord2 int, key, what string) {
+	if t, ok := w.tainted[sid]; ok && (ord >= t.ord || ord2 >= t.ord) {
+		w.stats.keys["after-"+t.key+":"+key]++
+		w.s.logEvent("consequence of %s on sid=%d from incarnation %d, not reported separately: %s (%s)", t.key, sid, t.ord, what, key)
+		return
+	}
+	w.fail(key, what)
+}
 
 // note: an observation that refutes a clause of the decomposition but not the property text itself
 func (w *rsWorld) note(key, what string) {
@@ -853,17 +884,17 @@ func (w *rsWorld) onMsg(o *rsObj, data []byte) {
 		w.readBy[o.side][o.sid] = map[int]bool{}
 	}
 	if w.readBy[o.side][o.sid][found] {
-		w.fail("msg-delivered-twice", fmt.Sprintf("message delivered twice: side=%d sid=%d msg#%d", o.side, o.sid, found))
+		w.symptom(o.sid, o.ord, -1, "msg-delivered-twice", fmt.Sprintf("message delivered twice: side=%d sid=%d msg#%d", o.side, o.sid, found))
 	}
 	w.readBy[o.side][o.sid][found] = true
 	wo := w.msgObj[peer][o.sid][found]
 	if wo != o.ord {
-		w.fail("msg-in-wrong-incarnation", fmt.Sprintf("message #%d written on incarnation %d of the stream was delivered to the reader's incarnation %d: reader side=%d sid=%d", found, wo, o.ord, o.side, o.sid))
+		w.symptom(o.sid, o.ord, wo, "msg-in-wrong-incarnation", fmt.Sprintf("message #%d written on incarnation %d of the stream was delivered to the reader's incarnation %d: reader side=%d sid=%d", found, wo, o.ord, o.side, o.sid))
 	}
 	if !w.s.sent[peer][o.sid][found].unordered {
 		for _, prev := range o.read {
 			if prev > found && !w.s.sent[peer][o.sid][prev].unordered {
-				w.fail("ordered-out-of-order", fmt.Sprintf("ordered message #%d delivered after #%d: reader side=%d sid=%d", found, prev, o.side, o.sid))
+				w.symptom(o.sid, o.ord, -1, "ordered-out-of-order", fmt.Sprintf("ordered message #%d delivered after #%d: reader side=%d sid=%d", found, prev, o.side, o.sid))
 				break
 			}
 		}
@@ -885,7 +916,7 @@ func (w *rsWorld) onEOF(o *rsObj) {
 		return
 	}
 	if wr == nil || !wr.closed {
-		w.fail("eof-without-close", fmt.Sprintf("reader got io.EOF on incarnation %d although the writer never closed that incarnation: reader side=%d sid=%d", o.ord, o.side, o.sid))
+		w.symptom(o.sid, o.ord, -1, "eof-without-close", fmt.Sprintf("reader got io.EOF on incarnation %d although the writer never closed that incarnation: reader side=%d sid=%d", o.ord, o.side, o.sid))
 		return
 	}
 	got := map[int]bool{}
@@ -899,7 +930,7 @@ func (w *rsWorld) onEOF(o *rsObj) {
 		}
 	}
 	if missing > 0 && !wr.pr {
-		w.fail("eof-before-all-data", fmt.Sprintf("reader got io.EOF after %d of the %d messages written before Close: reader side=%d sid=%d incarnation %d", len(wr.wrote)-missing, len(wr.wrote), o.side, o.sid, o.ord))
+		w.symptom(o.sid, o.ord, -1, "eof-before-all-data", fmt.Sprintf("reader got io.EOF after %d of the %d messages written before Close: reader side=%d sid=%d incarnation %d", len(wr.wrote)-missing, len(wr.wrote), o.side, o.sid, o.ord))
 	}
 }
 
@@ -1023,6 +1054,20 @@ func (w *rsWorld) before(s *sim, ev *simEvent) {
 	if ev.kind != "deliver" {
 		return
 	}
+	if ev.pkt.pkt != nil {
+		for _, c := range ev.pkt.pkt.chunks {
+			if rc, ok := c.(*chunkReconfig); ok {
+				for _, pa := range []param{rc.paramA, rc.paramB} {
+					switch v := pa.(type) {
+					case *paramOutgoingResetRequest:
+						s.logEvent("  RECONFIG to side=%d: request rsn=%d senderLastTSN=%d ids=%v", ev.side, v.reconfigRequestSequenceNumber, v.senderLastTSN, v.streamIdentifiers)
+					case *paramReconfigResponse:
+						s.logEvent("  RECONFIG to side=%d: response rsn=%d result=%d", ev.side, v.reconfigResponseSequenceNumber, uint32(v.result))
+					}
+				}
+			}
+		}
+	}
 	for sid, l := range w.objs[ev.side] {
 		o := l[len(l)-1]
 		o.st.lock.RLock()
@@ -1064,6 +1109,7 @@ func (w *rsWorld) after(s *sim, ev *simEvent) {
 			if eof && !w.preEOF[ev.side][sid] {
 				if wr := w.writerOf(o); wr == nil || !wr.closed {
 					w.blamed[rsObjKey(o)] = true
+					w.taint(sid, o.ord, "stale-request-resets-new-incarnation")
 					w.fail("stale-request-resets-new-incarnation", fmt.Sprintf("an outgoing-reset request of an earlier incarnation was applied to incarnation %d of the stream - reader gets EOF, stream unregistered - although its writer has not closed it: reader side=%d sid=%d", o.ord, ev.side, sid))
 				}
 			}
@@ -1082,6 +1128,7 @@ func (w *rsWorld) after(s *sim, ev *simEvent) {
 			o.st.lock.RUnlock()
 			if state == StreamStateOpen && !o.closed && (pre.ssn != 0 || pre.omid != 0 || pre.umid != 0) && ssn == 0 && om == 0 && um == 0 {
 				w.blamed[rsObjKey(o)] = true
+				w.taint(sid, o.ord, "late-response-rewinds-open-stream")
 				w.fail("late-response-rewinds-open-stream", fmt.Sprintf("a reset response for an earlier incarnation set the sequence counters of the open incarnation %d back to 0 - ssn %d, mid %d/%d before -: side=%d sid=%d", o.ord, pre.ssn, pre.omid, pre.umid, ev.side, sid))
 			}
 		}
